@@ -465,6 +465,49 @@ pub fn gen(rng: &mut Rng, n: usize, thorough: bool, emit: &mut dyn FnMut(String)
             emit(case_line(&p, &full));
         }
     }
+    // 3a. the nesting limit of the parser (`MAX_DEPTH = 64` open parenthesised arguments, commit
+    //     c25fac2): depths 63, 64 (inside the limit: the full meaning), 65, 66 (beyond: everything
+    //     before the formatter that goes too deep, then the error marker, nothing after). Every
+    //     kind of argument counts: group bodies, date format / zone arguments, MDC key / default.
+    for depth in [63usize, 64, 65, 66] {
+        let wrap = |inner: Vec<Pat>, levels: usize, kinds: [char; 2], specs: bool| -> Pat {
+            let mut p = inner;
+            for d in 0..levels {
+                let k = kinds[d % 2];
+                let sp = if specs && d % 7 == 3 { spec(None, Some(d % 2 == 0), Some("2"), Some("40")) } else { None };
+                p = vec![Pat::Group(k, d % 5 == 0, p, sp)];
+            }
+            p.pop().unwrap()
+        };
+        for (kinds, specs) in [(['a', 'a'], false), (['a', 'h'], true), (['h', 'd'], false), (['d', 'a'], true)] {
+            // groups only, around `{m}`
+            let g = wrap(vec![leaf("m")], depth, kinds, specs);
+            emit(case_line(&[lit('[', Esc::P), leaf("l"), lit(' ', Esc::P), g.clone(), lit(']', Esc::P), lit(' ', Esc::P), leaf("t")], &full));
+            // the last level is an MDC key / a date format argument
+            let x = wrap(vec![Pat::Mdc(false, plain_lits("k"), None, None), leaf("m")], depth - 1, kinds, specs);
+            emit(case_line(&[leaf("l"), lit('-', Esc::P), x, lit('.', Esc::P)], &full));
+            let dt = wrap(vec![Pat::Date(false, Some((plain_lits("%Y"), Some(true))), None)], depth - 1, kinds, specs);
+            emit(case_line(&[lit('<', Esc::P), dt, lit('>', Esc::P), leaf("m")], &base));
+            // a flat tail after the deep part, and a shallow group before it
+            let f = wrap(vec![lit('x', Esc::P)], depth, kinds, specs);
+            emit(case_line(&[Pat::Group('h', false, vec![leaf("l")], None), lit('[', Esc::P), f, lit(']', Esc::P), lit(' ', Esc::P), leaf("l"), lit(' ', Esc::P), leaf("m")], &base));
+        }
+    }
+    // 3c. an explicitly EMPTY MDC default / the empty MDC key (finding C09/mdc-empty-argument, repaired):
+    //     `{X(k)()}` is the value or the empty string, `{X()}` looks up the key ""
+    for long in [false, true] {
+        for sp in [None, spec(None, Some(true), Some("4"), None)] {
+            let mut with_empty = full.clone();
+            with_empty.mdc.push(("".into(), "value-of-the-empty-key".into()));
+            let e = || Some(Vec::<Lit>::new());
+            emit(case_line(&[lit('[', Esc::P), Pat::Mdc(long, plain_lits("nokey"), e(), sp.clone()), lit(']', Esc::P)], &full));
+            emit(case_line(&[lit('[', Esc::P), Pat::Mdc(long, plain_lits("k"), e(), sp.clone()), lit(']', Esc::P), leaf("m")], &full));
+            emit(case_line(&[leaf("l"), Pat::Mdc(long, vec![], None, sp.clone()), lit('|', Esc::P)], &with_empty));
+            emit(case_line(&[leaf("l"), Pat::Mdc(long, vec![], None, sp.clone()), lit('|', Esc::P)], &full));
+            emit(case_line(&[Pat::Mdc(long, vec![], Some(plain_lits("dflt")), sp.clone()), lit('|', Esc::P), Pat::Mdc(long, vec![], e(), None)], &full));
+            emit(case_line(&[Pat::Group('h', false, vec![Pat::Mdc(long, plain_lits("nokey"), e(), None), leaf("m")], sp.clone())], &with_empty));
+        }
+    }
     // 3b. `)` inside arguments in both escape styles: in the middle, last before the closer, runs
     //     of 1..=5, in every kind of argument (group body, date format, MDC key and default)
     for run in 1..=5usize {
@@ -536,6 +579,65 @@ pub fn gen(rng: &mut Rng, n: usize, thorough: bool, emit: &mut dyn FnMut(String)
         emit(case_line(&[d(None, false), sep(), d(Some(true), true), sep(), d(Some(true), false), sep(), d(Some(false), false)], &full));
         emit(case_line(&[Pat::Group('h', false, vec![d(Some(true), false)], None), Pat::Group('a', false, vec![d(Some(false), false)], spec(None, Some(true), Some("30"), None))], &full));
     }
+    // 4b2. every instant of the executor's clock table (`c11::INSTANTS`: nanoseconds 123456789 / 5 /
+    //      0, one second before local and before UTC midnight, year end in either zone, leap day,
+    //      before 1970) under the default `{d}` and the sub-second / zone / calendar formats. The
+    //      executor picks the instant by a hash of pattern and message: the message is searched.
+    {
+        let fmts: &[Option<&str>] = &[
+            None, Some("%+"), Some("%f"), Some("%.f"), Some("%.3f"), Some("%.6f"), Some("%.9f"), Some("%3f"), Some("%6f"), Some("%9f"),
+            Some("%Y-%m-%d %H:%M:%S%.f %:z"), Some("%s"), Some("%j %U %a %e %b %y"), Some("%D %T %z"), Some("%I:%M %p %Z"),
+        ];
+        for f in fmts {
+            let zones: &[Option<bool>] = if f.is_some() { &[None, Some(true), Some(false)] } else { &[None] };
+            for z in zones {
+                let ps = vec![lit('[', Esc::P), Pat::Date(false, f.map(|f| (plain_lits(f), *z)), None), lit(']', Esc::P), leaf("m")];
+                let mut pattern = String::new();
+                show(&ps, &mut pattern);
+                for idx in 0..c11::INSTANTS.len() {
+                    let mut rec = base.clone();
+                    rec.message = (0..10_000).map(|j| format!("t{}", j)).find(|m| c11::instant_index(&pattern, m) == idx).unwrap_or_default();
+                    emit(case_line(&ps, &rec));
+                }
+            }
+        }
+    }
+    // 4b3. long fields: message, target, module, file and an MDC value of 600, 1025 and 5000 bytes,
+    //      whole, truncated (`:.700`), padded, inside groups (the executor's bound on widths is 4096)
+    for size in [600usize, 1025, 5000] {
+        let text = |tag: &str| -> String {
+            let mut t = String::new();
+            let mut i = 0;
+            while t.len() < size {
+                t.push_str(&format!("{}{}.", tag, i));
+                i += 1;
+            }
+            t.truncate(size);
+            t
+        };
+        let mut rec = full.clone();
+        rec.message = text("m");
+        rec.target = text("t");
+        rec.module = Some(text("M"));
+        rec.file = Some(text("f"));
+        rec.mdc[0].1 = text("x");
+        let mut uni = full.clone();
+        uni.message = "\u{e9}\u{4e2d}".repeat(size / 5);
+        let x = |sp: Option<Spec>| Pat::Mdc(false, plain_lits("k"), None, sp);
+        let lf = |n: &str, sp: Option<Spec>| match leaf(n) {
+            Pat::Leaf(k, long, _) => Pat::Leaf(k, long, sp),
+            p => p,
+        };
+        for sp in [None, spec(None, None, None, Some("700")), spec(Some('*'), Some(true), Some("4000"), Some("4090")), spec(None, Some(false), Some("700"), Some("700"))] {
+            emit(case_line(&[lit('[', Esc::P), lf("m", sp.clone()), lit(']', Esc::P)], &rec));
+            emit(case_line(&[lit('[', Esc::P), lf("t", sp.clone()), lit(']', Esc::P)], &rec));
+            emit(case_line(&[lit('[', Esc::P), x(sp.clone()), lit(']', Esc::P)], &rec));
+            emit(case_line(&[lf("M", sp.clone()), lit('|', Esc::P), lf("f", sp.clone())], &rec));
+            emit(case_line(&[Pat::Group('a', false, vec![lf("m", None), lit('|', Esc::P), lf("t", None), x(None)], sp.clone())], &rec));
+            emit(case_line(&[Pat::Group('h', false, vec![lf("l", None), lit(' ', Esc::P), lf("m", sp.clone())], None), lf("n", None)], &rec));
+            emit(case_line(&[lf("m", sp.clone())], &uni));
+        }
+    }
     // 4c. fork family: the pid formatter in a process that forked after its first encode
     for long in [false, true] {
         let mut main = base.clone();
@@ -548,6 +650,11 @@ pub fn gen(rng: &mut Rng, n: usize, thorough: bool, emit: &mut dyn FnMut(String)
     // 5. {thread_id} (F5, repaired): the alias next to text and under a spec
     emit(case_line(&[Pat::Leaf(THREAD_ID, true, None)], &base));
     emit(case_line(&[lit('a', Esc::P), Pat::Leaf(THREAD_ID, true, None), lit('b', Esc::P)], &base));
+    // ---- ITEM 3 families (begin) ----------------------------------------------------------------
+    gen_nodebug_block(&full, &base, emit);
+    gen_threads_block(rng, &full, thorough, emit);
+    gen_tz_block(&full, &base, thorough, emit);
+    // ---- ITEM 3 families (end) ------------------------------------------------------------------
     // 6. random trees
     let depth = if thorough { 5 } else { 4 };
     for i in 0..n {
@@ -576,11 +683,30 @@ pub fn gen(rng: &mut Rng, n: usize, thorough: bool, emit: &mut dyn FnMut(String)
                 true
             }
         });
+        // nodebug family: ~5 % of the trees with a D/R group run in the build without debug assertions
+        if i % 20 == 7 && has_profile_group(&ps) {
+            emit(format!("{}\t@nodebug", case_line(&ps, &rec)));
+            continue;
+        }
         emit(case_line(&ps, &rec));
     }
 }
 
 pub fn exec(fields: &[&str]) -> String {
+    // ---- ITEM 3 families (begin) ----------------------------------------------------------------
+    // nodebug family: a trailing `@nodebug` only routes the case (./check hands it to the binary built
+    // without debug assertions); the observation's debug-profile fact says which binary really ran it
+    let fields: &[&str] = if fields.last() == Some(&"@nodebug") { &fields[..fields.len() - 1] } else { fields };
+    if fields.len() == 14 && fields[10] == "threads" {
+        return exec_threads(fields);
+    }
+    if fields.len() == 11 && fields[10].starts_with("tz:") {
+        return exec_tz(fields);
+    }
+    if fields.len() == 11 && fields[10].starts_with("tzrun:") {
+        return run_tz(fields);
+    }
+    // ---- ITEM 3 families (end) ------------------------------------------------------------------
     if fields.len() == 11 && fields[10] == "fork" {
         return c11::exec_fork(&fields[1..10]);
     }
@@ -588,4 +714,495 @@ pub fn exec(fields: &[&str]) -> String {
         return "bad-case".to_owned();
     }
     c11::exec(&fields[1..])
+}
+
+// ================================================================================================
+// ITEM 3 families (reviewer blind spots M2 / M6 / M4): `threads`, `tz-change`, `nodebug`
+//
+// threads   case = ordinary ten fields (the record and environment of the process's MAIN thread, thread name
+//           `main`) + `threads` + names(`,`; `-` unnamed) + messages(`,`) + MDCs (`|` between threads, each `k;v,…`)
+//           ONE encoder behind an Arc; main thread + k >= 2 spawned threads, all alive from the first encode
+//           to the last; two rounds, in each round main, t1, t2, … encode one after the other (turn counter)
+//           observation: `threads <debug> <pid> <k+1>` then per participant (main first) `name? tid ops ops`
+// tz-change case = ordinary ten fields + `tz:<zone 1>:<zone 2>:<t|s>` (zones as protocol strings); run in a CHILD
+//           process (this binary, `exec C09`, marker `tzrun:…`): TZ=zone 1, construct, encode; TZ=zone 2, encode
+//           again with the same encoder — `t`: on a fresh thread (chrono's `Local` caches the zone per thread and
+//           re-reads TZ at most once a second), `s`: on the same thread after sleeping 1.1 s
+//           observation: `tz <debug> <pid>` then per encode `tid offset(%z of Local::now(), taken by the harness right
+//           after the encode) ops dates(fmt;utc;text,…)`
+// nodebug   any case + trailing `@nodebug`: executed by the alt build without debug assertions (props.d/C09.json)
+// ================================================================================================
+use crate::c11::{Cap, Item};
+use log4rs::encode::{pattern::PatternEncoder, Encode};
+use std::panic::AssertUnwindSafe;
+use std::sync::{Arc, Barrier, Condvar, Mutex};
+
+fn has_profile_group(ps: &[Pat]) -> bool {
+    ps.iter().any(|p| match p {
+        Pat::Group(k, _, body, _) => *k == 'd' || *k == 'r' || has_profile_group(body),
+        _ => false,
+    })
+}
+
+fn strip_dates(ps: Vec<Pat>) -> Vec<Pat> {
+    ps.into_iter()
+        .map(|p| match p {
+            Pat::Date(..) => lit('d', Esc::P),
+            Pat::Group(k, l, body, sp) => Pat::Group(k, l, strip_dates(body), sp),
+            p => p,
+        })
+        .collect()
+}
+
+fn leaf_k(k: usize, long: bool) -> Pat {
+    Pat::Leaf(k, long, None)
+}
+
+fn gen_nodebug_block(full: &Case, base: &Case, emit: &mut dyn FnMut(String)) {
+    let sp = || lit(' ', Esc::P);
+    let lm = || vec![leaf("l"), sp(), leaf("m")];
+    let mut err = full.clone();
+    err.level = 1;
+    for long in [false, true] {
+        let r = |body: Vec<Pat>, s: Option<Spec>| Pat::Group('r', long, body, s);
+        let d = |body: Vec<Pat>, s: Option<Spec>| Pat::Group('d', long, body, s);
+        let h = |body: Vec<Pat>| Pat::Group('h', long, body, None);
+        let pats: Vec<Vec<Pat>> = vec![
+            // several children, in order
+            vec![r(lm(), None), d(lm(), None)],
+            vec![d(lm(), None), r(lm(), None)],
+            vec![
+                lit('<', Esc::P),
+                r(vec![leaf("l"), lit('-', Esc::P), leaf("m"), lit('-', Esc::P), leaf("t")], None),
+                lit('|', Esc::P),
+                d(vec![leaf("t"), lit('-', Esc::P), leaf("m"), lit('-', Esc::P), leaf("l")], None),
+                lit('>', Esc::P),
+            ],
+            vec![r(vec![lit('1', Esc::P), lit('2', Esc::P), lit('3', Esc::P)], None), d(vec![lit('4', Esc::P), lit('5', Esc::P), lit('6', Esc::P)], None)],
+            vec![r(vec![Pat::Mdc(false, plain_lits("k"), None, None), sp(), leaf("m"), sp(), leaf("T"), sp(), leaf("M")], None)],
+            // nested in each other
+            vec![r(vec![lit('a', Esc::P), r(lm(), None), lit('b', Esc::P), d(vec![lit('x', Esc::P), leaf("m")], None), lit('c', Esc::P)], None)],
+            vec![d(vec![lit('a', Esc::P), r(lm(), None), lit('b', Esc::P), d(lm(), None), lit('c', Esc::P)], None)],
+            vec![r(vec![r(vec![r(lm(), None), sp(), leaf("t")], None), sp(), leaf("M")], None), d(vec![d(vec![d(lm(), None), sp(), leaf("t")], None)], None)],
+            vec![Pat::Group('a', false, vec![r(lm(), None), lit('/', Esc::P), d(lm(), None)], spec(Some('.'), Some(true), Some("24"), None))],
+            // with specs
+            vec![r(lm(), spec(None, Some(true), Some("12"), None)), lit('|', Esc::P), d(lm(), spec(None, Some(true), Some("12"), None))],
+            vec![r(lm(), spec(None, None, None, Some("3"))), lit('|', Esc::P), d(lm(), spec(None, None, None, Some("3")))],
+            vec![r(lm(), spec(Some('*'), Some(false), Some("10"), Some("10"))), d(lm(), spec(Some('*'), Some(false), Some("10"), Some("10")))],
+            vec![r(vec![Pat::Leaf(0, false, spec(None, Some(true), Some("7"), None)), Pat::Leaf(1, true, spec(None, None, None, Some("2")))], spec(Some('_'), Some(false), Some("11"), None))],
+            vec![r(vec![r(lm(), spec(None, Some(true), Some("9"), Some("9"))), leaf("m")], spec(None, None, None, Some("11"))), d(vec![], None)],
+            // with highlight inside (and outside)
+            vec![r(vec![h(vec![leaf("l")]), sp(), leaf("m")], None), d(vec![h(vec![leaf("l")]), sp(), leaf("m")], None)],
+            vec![r(vec![h(lm())], None), d(vec![h(lm())], None)],
+            vec![h(vec![r(lm(), None), lit('+', Esc::P), d(lm(), None)])],
+            vec![r(vec![leaf("t"), h(vec![leaf("l"), r(vec![leaf("m"), sp(), leaf("t")], None)]), leaf("M")], spec(None, Some(true), Some("20"), None))],
+            vec![d(vec![leaf("t"), h(vec![leaf("l"), d(vec![leaf("m"), sp(), leaf("t")], None)]), leaf("M")], spec(None, Some(true), Some("20"), None))],
+        ];
+        for p in &pats {
+            for rec in [&err, base] {
+                let line = case_line(p, rec);
+                emit(line.clone());
+                emit(format!("{}\t@nodebug", line));
+            }
+        }
+    }
+}
+
+const THREAD_NAMES: &[Option<&str>] = &[Some("w\u{f6}rker"), Some("t-1"), Some("x y"), Some("pool-3"), Some("\u{4e2d}"), None];
+
+fn threads_line(ps: &[Pat], main: &Case, others: &[(Option<String>, String, Vec<(String, String)>)]) -> String {
+    let names: Vec<String> = others.iter().map(|o| enc_opt(o.0.as_ref(), |s| enc_str(s))).collect();
+    let msgs: Vec<String> = others.iter().map(|o| enc_str(&o.1)).collect();
+    let mdcs: Vec<String> = others
+        .iter()
+        .map(|o| {
+            let kv: Vec<String> = o.2.iter().map(|(k, v)| format!("{};{}", enc_str(k), enc_str(v))).collect();
+            enc_list(",", &kv)
+        })
+        .collect();
+    format!("{}\tthreads\t{}\t{}\t{}", case_line(ps, main), enc_list(",", &names), enc_list(",", &msgs), mdcs.join("|"))
+}
+
+fn gen_threads_block(rng: &mut Rng, full: &Case, thorough: bool, emit: &mut dyn FnMut(String)) {
+    let bar = || lit('|', Esc::P);
+    // the formatters whose text belongs to the encoding thread: T I i P X(k) m
+    let required = |rng: &mut Rng| -> Vec<Pat> {
+        let mut v = vec![];
+        for k in [5usize, THREAD_ID, 8, 7] {
+            v.push(bar());
+            v.push(leaf_k(k, rng.chance(1, 2)));
+        }
+        v.push(bar());
+        v.push(Pat::Mdc(rng.chance(1, 2), plain_lits("k"), if rng.chance(1, 3) { Some(plain_lits("none")) } else { None }, None));
+        v.push(bar());
+        v.push(leaf_k(1, rng.chance(1, 2)));
+        v
+    };
+    let n = if thorough { 600 } else { 120 };
+    for i in 0..n {
+        let mut ps = if i < 4 { vec![] } else { strip_dates(gen_pats(rng, 3, false)) };
+        let req = required(rng);
+        match i % 4 {
+            0 => ps.extend(req),
+            1 => ps.push(Pat::Group('a', false, req, spec(None, Some(i % 8 == 1), Some("90"), None))),
+            2 => ps.push(Pat::Group(
+                'a',
+                true,
+                vec![lit('<', Esc::P), Pat::Group('h', i % 8 == 2, req, spec(Some('.'), Some(false), Some("70"), Some("80"))), lit('>', Esc::P)],
+                spec(None, Some(true), Some("85"), None),
+            )),
+            _ => {
+                // both profile groups carry the same children: one of them is active in either build
+                ps.push(Pat::Group('d', false, req.clone(), None));
+                ps.push(Pat::Group('r', true, req, spec(None, None, Some("3"), None)));
+            }
+        }
+        let mut main = if i < 4 { full.clone() } else { c11::random_record(rng, "") };
+        main.thread = Some("main".into());
+        main.message = format!("main says {}", *rng.pick(c11::TEXTS));
+        let k = if i % 3 == 0 { 3 } else { 2 };
+        let mut names: Vec<Option<&str>> = THREAD_NAMES.to_vec();
+        rng.shuffle(&mut names);
+        let own_mdc = |rng: &mut Rng, who: &str| -> Vec<(String, String)> {
+            let mut m: Vec<(String, String)> = vec![];
+            if rng.chance(3, 4) {
+                m.push(("k".into(), format!("k-of-{}", who)));
+            }
+            for key in KEYS.iter().skip(1) {
+                if rng.chance(1, 4) {
+                    m.push(((*key).to_owned(), format!("{}@{}", *rng.pick(c11::TEXTS), who)));
+                }
+            }
+            m
+        };
+        main.mdc = own_mdc(rng, "main");
+        let others: Vec<(Option<String>, String, Vec<(String, String)>)> = (0..k)
+            .map(|j| {
+                let who = format!("t{}", j + 1);
+                (names[j].map(|s| s.to_owned()), format!("{} says {}", who, *rng.pick(c11::TEXTS)), own_mdc(rng, &who))
+            })
+            .collect();
+        let line = threads_line(&ps, &main, &others);
+        if i % 16 == 3 {
+            emit(format!("{}\t@nodebug", line));
+        } else {
+            emit(line);
+        }
+    }
+}
+
+const TZ_PAIRS: &[(&str, &str)] = &[("XST5:45", "YST-3"), ("UTC0", "XST5:45"), ("YST-3", "ZST12")];
+
+fn tz_line(ps: &[Pat], rec: &Case, z1: &str, z2: &str, mode: char) -> String {
+    format!("{}\ttz:{}:{}:{}", case_line(ps, rec), enc_str(z1), enc_str(z2), mode)
+}
+
+fn gen_tz_block(full: &Case, base: &Case, thorough: bool, emit: &mut dyn FnMut(String)) {
+    let d = |f: &str, z: Option<bool>, long: bool, sp: Option<Spec>| Pat::Date(long, Some((plain_lits(f), z)), sp);
+    let sp = || lit(' ', Esc::P);
+    let pats: Vec<Vec<Pat>> = vec![
+        vec![d("%z", None, false, None)],
+        vec![d("%:z", None, false, None)],
+        vec![d("%z", Some(true), false, None)],
+        vec![d("%z", Some(false), true, None)],
+        vec![lit('[', Esc::P), d("%z", None, false, None), lit('|', Esc::P), d("%z", Some(true), false, None), lit('|', Esc::P), d("%:z", Some(false), true, None), lit(']', Esc::P)],
+        vec![Pat::Group('a', false, vec![d("%z", None, false, None)], spec(None, Some(true), Some("12"), None))],
+        vec![Pat::Group('h', false, vec![leaf("l"), sp(), d("%:z", None, true, None)], None), sp(), leaf("m")],
+        vec![Pat::Group('d', false, vec![d("%z", None, false, None)], None), Pat::Group('r', false, vec![d("%z", Some(false), false, None)], None)],
+        vec![leaf("l"), sp(), d("%z", None, false, None), sp(), leaf("m"), sp(), leaf("T"), sp(), Pat::Mdc(false, plain_lits("k"), None, None)],
+        vec![d("%z", None, false, spec(Some('.'), Some(true), Some("9"), None)), lit('|', Esc::P), d("%:z", Some(false), false, spec(None, None, None, Some("3")))],
+        vec![d("UTC%z", None, false, None), sp(), d("off=%:z %%", Some(false), true, None), sp(), d("%:z", Some(true), true, None)],
+        vec![Pat::Group('a', true, vec![Pat::Group('h', true, vec![d("%:z", Some(false), false, spec(None, Some(false), Some("8"), None))], None), leaf("m")], spec(Some('*'), Some(true), Some("20"), Some("20")))],
+    ];
+    for (pi, &(z1, z2)) in TZ_PAIRS.iter().enumerate() {
+        for (i, p) in pats.iter().enumerate() {
+            let rec = if i % 2 == 0 { base } else { full };
+            emit(tz_line(p, rec, z1, z2, 't'));
+        }
+        // the same thread keeps logging across the change (1.1 s per case: one case, every pair when thorough)
+        if pi == 0 || thorough {
+            emit(tz_line(&pats[4], full, z1, z2, 's'));
+        }
+    }
+    emit(format!("{}\t@nodebug", tz_line(&pats[7], full, "XST5:45", "YST-3", 't')));
+}
+
+fn level_of9(l: u8) -> log::Level {
+    match l {
+        1 => log::Level::Error,
+        2 => log::Level::Warn,
+        3 => log::Level::Info,
+        4 => log::Level::Debug,
+        _ => log::Level::Trace,
+    }
+}
+
+/// the operation stream of one capture, rendered like `c11::render_items` (never masked)
+fn render_cap(items: &[Item]) -> String {
+    let mut out: Vec<String> = vec![];
+    for it in items {
+        match it {
+            Item::Data(d) => {
+                if d.is_empty() {
+                    continue;
+                }
+                match std::str::from_utf8(d) {
+                    Ok(s) => out.push(format!("T{}", enc_str(s))),
+                    Err(_) => out.push(format!("BADUTF8{}", enc_bytes(d))),
+                }
+            }
+            Item::Style(t, b, i) => out.push(format!(
+                "S{}/{}/{}",
+                enc_opt(*t, |x| x.to_string()),
+                enc_opt(*b, |x| x.to_string()),
+                enc_opt(*i, |x| enc_bool(x).to_owned())
+            )),
+        }
+    }
+    enc_list(",", &out)
+}
+
+/// one encode of the record of `c` with message `msg` on the calling thread: `ops` | `err` | `PANIC`
+fn encode_ops(encoder: &PatternEncoder, c: &Case, msg: &str) -> String {
+    let mut cap = Cap::default();
+    let r = guarded(AssertUnwindSafe(|| {
+        encoder
+            .encode(
+                &mut cap,
+                &log::Record::builder()
+                    .level(level_of9(c.level))
+                    .target(&c.target)
+                    .module_path(c.module.as_deref())
+                    .file(c.file.as_deref())
+                    .line(c.line)
+                    .args(format_args!("{}", msg))
+                    .build(),
+            )
+            .is_ok()
+    }));
+    match r {
+        Ok(true) => render_cap(&cap.items),
+        Ok(false) => "err".to_owned(),
+        Err(_) => "PANIC".to_owned(),
+    }
+}
+
+fn set_mdc(mdc: &[(String, String)]) {
+    log_mdc::clear();
+    for (k, v) in mdc {
+        log_mdc::insert(k.clone(), v.clone());
+    }
+}
+
+const THREAD_ROUNDS: usize = 2;
+
+/// one participant of a `threads` case; runs on its own thread (participant 0: the process's main thread)
+fn thread_participant(
+    j: usize,
+    p: usize,
+    encoder: &PatternEncoder,
+    c: &Case,
+    msg: &str,
+    mdc: &[(String, String)],
+    start: &Barrier,
+    turn: &(Mutex<usize>, Condvar),
+    end: &Barrier,
+) -> String {
+    set_mdc(mdc);
+    let name = std::thread::current().name().map(|s| s.to_owned());
+    let tid = thread_id::get();
+    // every participant is alive before the first encode …
+    start.wait();
+    let mut ops: Vec<String> = vec![];
+    for r in 0..THREAD_ROUNDS {
+        let slot = r * p + j;
+        let mut t = turn.0.lock().unwrap_or_else(|e| e.into_inner());
+        while *t != slot {
+            t = turn.1.wait(t).unwrap_or_else(|e| e.into_inner());
+        }
+        ops.push(encode_ops(encoder, c, msg));
+        *t += 1;
+        turn.1.notify_all();
+    }
+    // … and until after the last one
+    end.wait();
+    log_mdc::clear();
+    format!("{} {} {}", enc_opt(name.as_ref(), |s| enc_str(s)), tid, ops.join(" "))
+}
+
+fn exec_threads(fields: &[&str]) -> String {
+    c11::process_init();
+    let c = match Case::parse(&fields[1..10]) {
+        Some(c) => c,
+        None => return "bad-case".to_owned(),
+    };
+    let names = dec_list(',', fields[11]);
+    let msgs = dec_list(',', fields[12]);
+    let mdcs: Vec<&str> = fields[13].split('|').collect();
+    let k = names.len();
+    if !(2..=8).contains(&k) || msgs.len() != k || mdcs.len() != k {
+        return "bad-case".to_owned();
+    }
+    let mut others: Vec<(Option<String>, String, Vec<(String, String)>)> = vec![];
+    for j in 0..k {
+        let name = if names[j] == "-" {
+            None
+        } else {
+            match dec_str(&names[j]) {
+                Some(n) if !n.contains('\0') => Some(n),
+                _ => return "bad-case".to_owned(),
+            }
+        };
+        let msg = match dec_str(&msgs[j]) {
+            Some(m) => m,
+            None => return "bad-case".to_owned(),
+        };
+        let mut mdc = vec![];
+        for kv in dec_list(',', mdcs[j]) {
+            match kv.split_once(';').and_then(|(a, b)| Some((dec_str(a)?, dec_str(b)?))) {
+                Some(e) => mdc.push(e),
+                None => return "bad-case".to_owned(),
+            }
+        }
+        others.push((name, msg, mdc));
+    }
+    let debug = cfg!(debug_assertions);
+    let pid = std::process::id();
+    let encoder = match guarded(AssertUnwindSafe(|| PatternEncoder::new(&c.pattern))) {
+        Ok(e) => Arc::new(e),
+        Err(_) => return format!("threads {} {} PANIC:new", enc_bool(debug), pid),
+    };
+    let p = k + 1;
+    let start = Arc::new(Barrier::new(p));
+    let end = Arc::new(Barrier::new(p));
+    let turn = Arc::new((Mutex::new(0usize), Condvar::new()));
+    let c = Arc::new(c);
+    let mut handles = vec![];
+    for (j, (name, msg, mdc)) in others.into_iter().enumerate() {
+        let (encoder, c, start, end, turn) = (encoder.clone(), c.clone(), start.clone(), end.clone(), turn.clone());
+        let b = std::thread::Builder::new();
+        let b = match name {
+            Some(n) => b.name(n),
+            None => b,
+        };
+        match b.spawn(move || thread_participant(j + 1, p, &encoder, &c, &msg, &mdc, &start, &turn, &end)) {
+            Ok(h) => handles.push(h),
+            // the barriers would never open: nothing sensible is left to do in this process
+            Err(_) => std::process::exit(3),
+        }
+    }
+    let mine = thread_participant(0, p, &encoder, &c, &c.message, &c.mdc, &start, &turn, &end);
+    let mut out = format!("threads {} {} {} {}", enc_bool(debug), pid, p, mine);
+    for h in handles {
+        out.push(' ');
+        out.push_str(&h.join().unwrap_or_else(|_| "- 0 PANIC PANIC".to_owned()));
+    }
+    out
+}
+
+/// parent side of a `tz-change` case: the zone is process-global, the case runs in a child process
+fn exec_tz(fields: &[&str]) -> String {
+    use std::io::Write as _;
+    use std::process::{Command, Stdio};
+    let marker = fields[10].replacen("tz:", "tzrun:", 1);
+    let line = format!("C09\t{}\t{}\n", fields[..10].join("\t"), marker);
+    let exe = match std::env::current_exe() {
+        Ok(e) => e,
+        Err(_) => return "bad-case".to_owned(),
+    };
+    let mut child = match Command::new(exe).args(["exec", "C09"]).stdin(Stdio::piped()).stdout(Stdio::piped()).stderr(Stdio::null()).spawn() {
+        Ok(c) => c,
+        Err(_) => return "bad-case".to_owned(),
+    };
+    if let Some(mut stdin) = child.stdin.take() {
+        let _ = stdin.write_all(line.as_bytes());
+    }
+    let out = match child.wait_with_output() {
+        Ok(o) => o,
+        Err(_) => return "bad-case".to_owned(),
+    };
+    let text = String::from_utf8_lossy(&out.stdout);
+    let first = text.lines().next().unwrap_or("");
+    if !out.status.success() || first.is_empty() {
+        return format!("tz ABORT:rc{}", out.status.code().unwrap_or(-1));
+    }
+    first.to_owned()
+}
+
+/// child side of a `tz-change` case (the only case this process runs)
+fn run_tz(fields: &[&str]) -> String {
+    let parts: Vec<&str> = fields[10].split(':').collect();
+    if parts.len() != 4 || !(parts[3] == "t" || parts[3] == "s") {
+        return "bad-case".to_owned();
+    }
+    let (z1, z2) = match (dec_str(parts[1]), dec_str(parts[2])) {
+        (Some(a), Some(b)) if !a.contains('\0') && !b.contains('\0') && !a.is_empty() && !b.is_empty() => (a, b),
+        _ => return "bad-case".to_owned(),
+    };
+    let c = match Case::parse(&fields[1..10]) {
+        Some(c) => c,
+        None => return "bad-case".to_owned(),
+    };
+    // zone 1 is in force before the first `Local` call of this process (no `process_init`: it sets the harness zone)
+    std::env::set_var("TZ", &z1);
+    let debug = cfg!(debug_assertions);
+    let pid = std::process::id();
+    let encoder = match guarded(AssertUnwindSafe(|| PatternEncoder::new(&c.pattern))) {
+        Ok(e) => e,
+        Err(_) => return format!("tz {} {} PANIC:new", enc_bool(debug), pid),
+    };
+    let fmts = c11::date_formats(&c.pattern);
+    // one encode and, right after it on the same thread, what chrono says the local offset and the date texts are
+    let one = || -> String {
+        set_mdc(&c.mdc);
+        let ops = encode_ops(&encoder, &c, &c.message);
+        let off = guarded(|| chrono::Local::now().format("%z").to_string()).unwrap_or_else(|_| "PANIC".to_owned());
+        let mut ds: Vec<String> = vec![];
+        for f in &fmts {
+            for utc in [false, true] {
+                let t = guarded(AssertUnwindSafe(|| {
+                    if utc {
+                        chrono::Utc::now().format(f).to_string()
+                    } else {
+                        chrono::Local::now().format(f).to_string()
+                    }
+                }))
+                .unwrap_or_else(|_| "PANIC".to_owned());
+                ds.push(format!("{};{};{}", enc_str(f), enc_bool(utc), enc_str(&t)));
+            }
+        }
+        log_mdc::clear();
+        format!("{} {} {} {}", thread_id::get(), off, ops, enc_list(",", &ds))
+    };
+    let named = || {
+        let b = std::thread::Builder::new();
+        match &c.thread {
+            Some(n) => b.name(n.clone()),
+            None => b,
+        }
+    };
+    let same_thread = parts[3] == "s";
+    let res = std::thread::scope(|s| -> Option<(String, String)> {
+        if same_thread {
+            let h = named()
+                .spawn_scoped(s, || {
+                    let a = one();
+                    std::env::set_var("TZ", &z2);
+                    std::thread::sleep(std::time::Duration::from_millis(1100));
+                    (a, one())
+                })
+                .ok()?;
+            h.join().ok()
+        } else {
+            let a = named().spawn_scoped(s, &one).ok()?.join().ok()?;
+            std::env::set_var("TZ", &z2);
+            let b = named().spawn_scoped(s, &one).ok()?.join().ok()?;
+            Some((a, b))
+        }
+    });
+    std::env::set_var("TZ", c11::HARNESS_TZ);
+    match res {
+        Some((a, b)) => format!("tz {} {} {} {}", enc_bool(debug), pid, a, b),
+        None => "bad-case".to_owned(),
+    }
 }
